@@ -18,10 +18,12 @@
 //@ closure 1
 |e: ToStrError| -> (h: HttpError) ensures is_client_code(status_of(h))
 //@ closure 2
-|e: String| -> (h: HttpError) ensures is_client_code(status_of(h))
+|| -> (n: usize) ensures n == byte_len(content_type@)
 //@ closure 3
-|e: PathError| -> (h: HttpError) ensures is_client_code(status_of(h))
+|e: String| -> (h: HttpError) ensures is_client_code(status_of(h))
 //@ closure 4
-|e: SerdeJsonError| -> (h: HttpError) ensures is_client_code(status_of(h))
+|e: PathError| -> (h: HttpError) ensures is_client_code(status_of(h))
 //@ closure 5
+|e: SerdeJsonError| -> (h: HttpError) ensures is_client_code(status_of(h))
+//@ closure 6
 |e: PathError| -> (h: HttpError) ensures is_client_code(status_of(h))
